@@ -660,6 +660,8 @@ func run(c *hc.Ctx) error {
 		uint64(crypto.RSAFingerprint(&e.own.PublicKey)):     e.own,
 	}
 	var lines, inputs, wantState, wantSent []string
+	var byteLines, byteImpl, byteIn []string
+	var bytePre []bool
 	for i, a := range cases {
 		o := outs[i]
 		in := a.String()
@@ -744,6 +746,21 @@ func run(c *hc.Ctx) error {
 		inputs = append(inputs, in)
 		wantState = append(wantState, impl)
 		wantSent = append(wantSent, strings.Join(sent, " | "))
+		// ---- byte level: envelopes and TL decoding of what was delivered (mangled or not), TL
+		// encoding of what the client sent, the inner-data plaintexts
+		var toks []string
+		for _, m := range append(append([]string{}, sent...), delivered...) {
+			if f := strings.Fields(m); len(f) > 0 {
+				toks = append(toks, f[len(f)-1])
+			}
+		}
+		bl, bi, bn, bp := c09x.ByteLines(o.sent, o.recv, toks, dec, false, !strings.HasSuffix(a.kind, "leading-zeros"))
+		for k := range bl {
+			byteLines = append(byteLines, bl[k])
+			byteImpl = append(byteImpl, bi[k])
+			byteIn = append(byteIn, in+" :: "+bn[k])
+			bytePre = append(bytePre, bp[k])
+		}
 	}
 	res, err := c.Drv.Batch(lines)
 	if err != nil {
@@ -761,6 +778,16 @@ func run(c *hc.Ctx) error {
 			c.Res.TracesValidated++
 		}
 	}
+	bres, err := c.Drv.Batch(byteLines)
+	if err != nil {
+		return err
+	}
+	for k, ans := range bres {
+		if c.Compare(byteIn[k]+" :: "+byteLines[k], c09x.ByteAgree(byteImpl[k], ans, bytePre[k]), ans) {
+			c.Res.TracesValidated++
+		}
+	}
+	c.Count(fmt.Sprintf("byte-level comparisons: %d", len(bres)))
 	c.Res.Rule = "each case = one exchange of the real client against a scripted impostor with one deviation (kinds and their frequencies are in the distribution; bit positions, table indices, seeds from the PRNG); 12% controls and format variations by an authenticated server with safe parameters (accepted or not as the model decides), 5% generators 2…7 against the residue condition, 7% impostors with their own RSA key, the rest attacks (incl. extension, truncation, duplication, swapping of ciphertext blocks); non-trivial = the deviation is an attack (client must fail); distinct = distinct case line"
 	c.PartialNote("the adversary library is finite: deviations are applied one at a time (plus `claim` = no private key combined with any of them); pq = 0, 1 and prime pq are offered (`pq-degenerate`): before the fix in exchange/client_flow.go they crashed or hung the client (crypto.DecomposePQ divides by zero / never returns)")
 	c.PartialNote("that a peer without the private key cannot produce an answer decrypting under the temporary key is a cryptographic assumption (RSA_PAD, SHA-1, AES-IGE); the impostors here guess, flip, truncate, replay or re-key")
